@@ -389,6 +389,11 @@ func (c *Ctx) lessAdapters() []*lessAdapter {
 				case c.isASTNode(ft):
 					hasNode = true
 				case isBoolType(ft) || isErrorType(ft):
+					// the latch is the flag Less writes (a struct may carry other
+					// flags, e.g. which kind of key it sorts by)
+					if !lessWritesField(less, s2, i) && anyBoolWritten(less) {
+						break
+					}
 					if len(path) == 0 {
 						ad.latch = i
 					} else {
@@ -645,4 +650,42 @@ func (ad *lessAdapter) latchPathTail() []int {
 		return nil
 	}
 	return ad.latchPath[1:]
+}
+
+// lessWritesField: less stores into field i of a struct of type st (reached from its receiver).
+func lessWritesField(less *ssa.Function, st *types.Struct, i int) bool {
+	for _, b := range less.Blocks {
+		for _, in := range b.Instrs {
+			s, ok := in.(*ssa.Store)
+			if !ok {
+				continue
+			}
+			fa, ok := s.Addr.(*ssa.FieldAddr)
+			if !ok || fa.Field != i {
+				continue
+			}
+			t := fa.X.Type()
+			if pt, ok := t.Underlying().(*types.Pointer); ok {
+				t = pt.Elem()
+			}
+			if types.Identical(t.Underlying(), st) {
+				return true
+			}
+		}
+	}
+	return false
+}
+
+// anyBoolWritten: less stores a bool or an error into some field.
+func anyBoolWritten(less *ssa.Function) bool {
+	for _, b := range less.Blocks {
+		for _, in := range b.Instrs {
+			if s, ok := in.(*ssa.Store); ok {
+				if _, isFA := s.Addr.(*ssa.FieldAddr); isFA && (isBoolType(s.Val.Type()) || isErrorType(s.Val.Type())) {
+					return true
+				}
+			}
+		}
+	}
+	return false
 }
